@@ -320,6 +320,9 @@ type sigReader struct{ ok bool }
 
 func (s *sigReader) Read(p []byte) (int, error) { return 0, io.EOF }
 
+// VHVerdict is what M-PGP answers for a commit carrying this signature.
+func (s *sigReader) VHVerdict() bool { return s.ok }
+
 func (r *Repo) ReadCommit(hash repository.Hash) (repository.Commit, error) {
 	r.mu.Lock()
 	defer r.mu.Unlock()
